@@ -2,8 +2,8 @@ import os, glob
 HERE = os.path.dirname(os.path.abspath(__file__))
 ALL = ['C02', 'C03', 'C04', 'C06', 'C07', 'C08', 'C09', 'C10', 'C12', 'C13', 'C14', 'C15', 'C16', 'C18', 'C19', 'C20']
 # behaviour-preserving refactorings written by independent sub-agents: every check must stay silent on each of them.
-# Known remaining alarm (documented in DESIGN.md 9.6): D_benign_5 (saturating_sub rewrite of a reviewed expression) on C02 / C08.
-KNOWN_ALARMS = {'D_benign_5': {'C02', 'C08'}}
+
+KNOWN_ALARMS = {}
 MUTANTS = []
 for f in sorted(glob.glob(os.path.join(HERE, 'benign', '*_benign_*.diff'))):
     n = os.path.basename(f)[:-5]
